@@ -205,6 +205,9 @@ struct Spec {
     /// initial value of `battery_state`
     state_features: bool,
     soc_override: Option<f64>,
+    /// the query's `state_features` replaces `battery_state` by a feature of another format
+    /// (signed_integer, unsigned_integer, boolean): a change of kind, to be refused
+    soc_format: Option<&'static str>,
     cfg: Option<CfgSpec>,
 }
 
@@ -330,10 +333,17 @@ fn case_line(sp: &Spec) -> String {
         edges,
         fbits(sp.bcd),
         hm,
-        match sp.soc_override {
-            None => "n".to_string(),
-            Some(y) => format!("s {}", fbits(y)),
-        }
+        format!(
+            "{} {}",
+            match sp.soc_override {
+                None => "n".to_string(),
+                Some(y) => format!("s {}", fbits(y)),
+            },
+            match sp.soc_format {
+                None => "n".to_string(),
+                Some(f) => format!("s {}", f),
+            }
+        )
     )
 }
 
@@ -570,7 +580,12 @@ fn query_json(sp: &Spec, model_name: Option<serde_json::Value>) -> serde_json::V
         }
         if sp.kind != Kind::Ice {
             sf.insert("energy_electric".to_string(), serde_json::json!({ "energy_unit": sp.feu, "initial": 0.0 }));
-            if let Some(y) = sp.soc_override {
+            if let Some(f) = sp.soc_format {
+                let initial = if f == "boolean" { serde_json::json!(true) } else { serde_json::json!(50) };
+                let mut fmt = serde_json::Map::new();
+                fmt.insert(f.to_string(), serde_json::json!({ "initial": initial }));
+                sf.insert("battery_state".to_string(), serde_json::json!({ "type": "soc", "unit": "percent", "format": fmt }));
+            } else if let Some(y) = sp.soc_override {
                 sf.insert(
                     "battery_state".to_string(),
                     serde_json::json!({ "type": "soc", "unit": "percent", "format": { "floating_point": { "initial": y } } }),
@@ -858,7 +873,14 @@ fn drive(sp: &Spec, model: Arc<dyn TraversalModel>, vehicle: Option<Arc<dyn Vehi
         Arc::new(routee_compass_core::model::access::default::no_access_model::NoAccessModel {}),
     )
     .expect("collect_features");
-    let sm = StateModel::empty().extend(features).expect("extend");
+    // (as `build_search_instance` does: a failing `extend` is a build error for this query)
+    let sm = match StateModel::empty().extend(features) {
+        Ok(sm) => sm,
+        Err(_) => {
+            out.rejected = true;
+            return ("rejected".to_string(), out);
+        }
+    };
     let mut state = sm.initial_state().unwrap();
     let v = Vertex::new(0, 0.0, 0.0);
     out.init = read_state(sp, &sm, &state);
@@ -1022,6 +1044,14 @@ fn oracle_inner(ctx: &mut Fails, idx: usize, sp: &Spec, oc: &Outcome, twin: Opti
             return;
         }
     }
+    if sp.cfg.is_some() {
+        let bad_speed = sp.speeds.iter().any(|x| x.is_nan() || *x < 0.0);
+        let bad_grade = sp.grades.as_ref().map(|g| g.iter().any(|x| !x.is_finite())).unwrap_or(false);
+        if (bad_speed || bad_grade) && !oc.engine_rejected {
+            ctx.fail(idx, "builder/table-row-invalid", format!("a speed table with a NaN / negative row ({}) or a grade table with a row that is not finite ({}) was built", bad_speed, bad_grade));
+            return;
+        }
+    }
     if let Some(c) = &sp.cfg {
         // a battery capacity that is not a finite positive number is a configuration error
         if let Some((id, v)) = c.library.iter().find(|(_, v)| v.kind != Kind::Ice && !(v.cap.is_finite() && v.cap > 0.0)) {
@@ -1054,6 +1084,15 @@ fn oracle_inner(ctx: &mut Fails, idx: usize, sp: &Spec, oc: &Outcome, twin: Opti
     if let Some(b) = oc.built_soc {
         if b != 100.0 {
             ctx.fail(idx, "builder/starting-soc", format!("the vehicle builder gives the vehicle an initial charge of {} percent (capacity {} {})", b, sp.cap, sp.bunit));
+        }
+    }
+    // --- a query may not change the format of battery_state
+    if battery {
+        if let Some(f) = sp.soc_format {
+            if !oc.rejected {
+                ctx.fail(idx, "state_features/format-change", format!("the query's state_features replaced the floating-point battery_state by a {} feature and a model was built", f));
+            }
+            return;
         }
     }
     // --- rejection of the starting charge
@@ -1398,7 +1437,8 @@ fn gen_cache(rng: &mut Rng) -> Option<(usize, Vec<i32>)> {
     if rng.chance(1, 2) {
         return None;
     }
-    let size = *rng.pick(&[1usize, 2, 3, 8, 100]);
+    // the size only bounds the cache: a huge one must cost nothing
+    let size = if rng.chance(1, 20) { *rng.pick(&[usize::MAX, 4_000_000_000_000usize]) } else { *rng.pick(&[1usize, 2, 3, 8, 100]) };
     // a policy must have one precision per model input (speed, grade); other lengths are refused
     let precs: Vec<i32> = match rng.below(24) {
         0 => vec![],
@@ -1408,6 +1448,7 @@ fn gen_cache(rng: &mut Rng) -> Option<(usize, Vec<i32>)> {
         7..=10 => vec![2, 4],
         11..=14 => vec![8, 8],
         15..=17 => vec![-1, 2],
+        18 => vec![*rng.pick(&[-10, 10]), *rng.pick(&[-10, 10])],
         _ => vec![rng.range(-2, 10) as i32, rng.range(-2, 10) as i32],
     };
     Some((size, precs))
@@ -1541,7 +1582,7 @@ fn generate(rng: &mut Rng) -> Spec {
     let mut need = 0.0;
     let tmp = Spec {
         kind, rec: rec.clone(), sustain: None, cap: 1.0, bunit, query: Query::Absent, tmsu, grades: grades.clone(), ggu, sdu,
-        speeds: speeds.clone(), esu, edu, etu, ftu: etu, fdu: edu, flu: bunit, feu: bunit, edges: vec![], bcd: 0.0, od: ((0.0, 0.0), (0.0, 0.0)), state_features: false, soc_override: None, cfg: None,
+        speeds: speeds.clone(), esu, edu, etu, ftu: etu, fdu: edu, flu: bunit, feu: bunit, edges: vec![], bcd: 0.0, od: ((0.0, 0.0), (0.0, 0.0)), state_features: false, soc_override: None, soc_format: None, cfg: None,
     };
     for (id, d) in &edges {
         if *id < n_ids && grades.as_ref().map(|g| *id < g.len()).unwrap_or(true) && speeds[*id] > 0.0 {
@@ -1587,7 +1628,8 @@ fn generate(rng: &mut Rng) -> Spec {
     } else {
         ((x0, y0), (x0 + rng.uniform(-0.2, 0.2) as f32, y0 + rng.uniform(-0.2, 0.2) as f32))
     };
-    Spec { kind, rec, sustain, cap, bunit, query: gen_query(rng), tmsu, grades, ggu, sdu, speeds, esu, edu, etu, ftu, fdu, flu, feu, edges, bcd, od, state_features, soc_override, cfg: None }
+    let soc_format = if state_features && kind != Kind::Ice && rng.chance(1, 10) { Some(*rng.pick(&["signed_integer", "unsigned_integer", "boolean"])) } else { None };
+    Spec { kind, rec, sustain, cap, bunit, query: gen_query(rng), tmsu, grades, ggu, sdu, speeds, esu, edu, etu, ftu, fdu, flu, feu, edges, bcd, od, state_features, soc_override, soc_format, cfg: None }
 }
 
 fn plain_rec(ru: EnergyRateUnit, a0: f64, a1: f64, a2: f64, ideal: f64, cache: Option<(usize, Vec<i32>)>) -> RecSpec {
@@ -1618,6 +1660,7 @@ fn base_spec(kind: Kind, rec: RecSpec, sustain: Option<RecSpec>, cap: f64, bunit
         od: ((-105.0, 39.7), (-104.9, 39.75)),
         state_features: false,
         soc_override: None,
+        soc_format: None,
         cfg: None,
     }
 }
@@ -1738,6 +1781,8 @@ fn gen_file_rec(rng: &mut Rng, electric: bool, models: &[String], memo: &mut Has
     let min = sweep.iter().cloned().fold(f64::MAX, |m, r| if r < m { r } else { m });
     let ideal_cfg = if rng.chance(2, 3) { Some(min.abs().max(0.01) * rng.uniform(0.3, 1.0)) } else { None };
     let adj_cfg = if rng.chance(2, 3) { Some(if rng.chance(1, 4) { 1.0 } else { rng.uniform(1.0, 1.5) }) } else { None };
+    let adj_cfg = if rng.chance(1, 25) { Some(*rng.pick(&[0.0, -1.0])) } else { adj_cfg };
+    let ideal_cfg = if rng.chance(1, 25) { Some(*rng.pick(&[0.0, -0.1])) } else { ideal_cfg };
     let cache = if rng.chance(1, 2) { None } else { gen_cache(rng) };
     RecSpec {
         su,
@@ -1827,6 +1872,23 @@ fn generate_cfg(rng: &mut Rng, models: &[String], memo: &mut HashMap<String, Vec
     }
     if sp.kind == Kind::Ice {
         sp.soc_override = None;
+        sp.soc_format = None;
+    } else if sp.state_features && sp.soc_format.is_none() && rng.chance(1, 10) {
+        sp.soc_format = Some(*rng.pick(&["signed_integer", "unsigned_integer", "boolean"]));
+    }
+    // rows the file readers must refuse (NaN and negative speeds, grades that are not finite) and an
+    // infinite speed, which is accepted (edge time 0)
+    if rng.chance(1, 10) {
+        let k = rng.below(sp.speeds.len());
+        sp.speeds[k] = *rng.pick(&[f64::NAN, f64::INFINITY, f64::INFINITY, f64::NEG_INFINITY]);
+    }
+    if rng.chance(1, 12) {
+        if let Some(g) = sp.grades.as_mut() {
+            if !g.is_empty() {
+                let k = rng.below(g.len());
+                g[k] = *rng.pick(&[f64::NAN, f64::INFINITY, f64::NEG_INFINITY]);
+            }
+        }
     }
     sp.cfg = Some(CfgSpec { library, name, omit_edu, omit_etu, omit_sdu, bad_coord: rng.chance(1, 20), malformed: if rng.chance(1, 14) { Some(rng.below(16)) } else { None } });
     sp
@@ -2017,7 +2079,7 @@ pub fn run(ctx: &mut Ctx) -> &'static str {
                 if bad_capacity { ctx.count("cfg_battery_capacity_not_positive"); }
                 if bad_policy { ctx.count("cfg_cache_policy_wrong_length"); }
                 let bad_policy = bad_policy || bad_capacity;
-                if valid_name && cfg.malformed.is_none() && !bad_policy && !sp.speeds.iter().any(|x| *x < 0.0) && strip_direct(&twin_out) != (if out.starts_with("built ") { out.splitn(2, " | ").nth(1).unwrap_or("") } else { out.as_str() }) {
+                if valid_name && cfg.malformed.is_none() && !bad_policy && !sp.speeds.iter().any(|x| *x < 0.0 || x.is_nan()) && !sp.grades.as_ref().map(|g| g.iter().any(|x| !x.is_finite())).unwrap_or(false) && strip_direct(&twin_out) != (if out.starts_with("built ") { out.splitn(2, " | ").nth(1).unwrap_or("") } else { out.as_str() }) {
                     ctx.fail(idx, "builder/in-process-twin", format!("the model built from configuration gives `{}` where the same vehicle constructed in-process gives `{}`", out.chars().take(300).collect::<String>(), strip_direct(&twin_out).chars().take(300).collect::<String>()));
                 }
             }
